@@ -216,6 +216,9 @@ static int run_call(const jv *act, cres *r, char *why, size_t wn)
     } else if (!strcmp(a, "AddItemToObjectAlias")) { cJSON *it = N_(A(2)); WIN(3); RBOOL(cJSON_AddItemToObject(N_(A(1)), it->string, it));
     } else if (!strcmp(a, "ReplaceItemInObjectAlias")) { cJSON *it = N_(A(2)); WIN(4);
         if (jv_int(A(3))) RBOOL(cJSON_ReplaceItemInObjectCaseSensitive(N_(A(1)), it->string, it)); else RBOOL(cJSON_ReplaceItemInObject(N_(A(1)), it->string, it));
+    } else if (!strcmp(a, "AddItemToObjectAliasAt")) { cJSON *it = N_(A(2)); WIN(4); RBOOL(cJSON_AddItemToObject(N_(A(1)), it->string + jv_int(A(3)), it));
+    } else if (!strcmp(a, "ReplaceItemInObjectAliasAt")) { cJSON *it = N_(A(2)); WIN(5);
+        if (jv_int(A(4))) RBOOL(cJSON_ReplaceItemInObjectCaseSensitive(N_(A(1)), it->string + jv_int(A(3)), it)); else RBOOL(cJSON_ReplaceItemInObject(N_(A(1)), it->string + jv_int(A(3)), it));
     } else if (!strcmp(a, "EnvMakeCycle")) { N_(A(1))->child = N_(A(2)); r->t = 3;      /* the caller's own doing, not a library call */
     } else if (!strcmp(a, "EnvBreakCycle")) { N_(A(1))->child = NULL; r->t = 3;
     } else if (!strcmp(a, "SortObject")) { al_window(0); if (jv_int(A(2))) cJSONUtils_SortObjectCaseSensitive(N_(A(1))); else cJSONUtils_SortObject(N_(A(1))); r->t = 3;
@@ -255,8 +258,10 @@ static void tviol(const jv *act, int kind, const char *msg)
     if (last && last->t == JV_INT && (strstr(a, "Create") || strstr(a, "Add") || strstr(a, "Replace") || !strcmp(a, "Duplicate") || !strcmp(a, "SetValuestring"))) f = last->i;
     if (kind == 0) strcat(owners, "*");
     else {
-        strcat(owners, kind == 1 ? "C06 " : "C07 ");
+        strcat(owners, kind == 1 ? "C06 " : "C07 C14 ");      /* the tree runs are made under custom hooks: a block released twice / never / with a foreign pointer contradicts C14 as well */
+        if (kind == 2 && strstr(msg, "should be live")) strcat(owners, "C06 ");      /* a member that no longer exists: the container does not hold what the list model says */
         if (kind == 1 && (strstr(msg, "type is") || strstr(msg, "key") || strstr(msg, "valuestring"))) strcat(owners, "C07 ");
+        if (strstr(a, "Alias") && !strstr(owners, "C07")) strcat(owners, "C07 ");      /* C07: "a key passed to an add or replace call may alias memory of the item being added" */
         if (f > 0) strcat(owners, "C08 ");
         if (!strcmp(a, "Duplicate")) strcat(owners, "C11 ");
         if (!strcmp(a, "SortObject")) strcat(owners, "C19 C06 ");
